@@ -274,7 +274,7 @@ def classify(rep, prop, cases, max_steps=6000, max_ev=300):
     for c in cases:
         traces.append({"id": c["id"], "prog": list(c["prog"]), "w": c["w"], "input": c["input"], "outFail": -1,
                        "inFail": -1, "inAbsent": 0, "outAbsent": 0, "log": [], "claim": "classify",
-                       "mustFinish": 0, "detail": "", "refused": 0})
+                       "mustFinish": 0, "detail": "", "refused": 0, "inSilent": 0})
     verdicts = bf.validate(traces, rep, prop + "-classify", max_steps=max_steps, max_ev=max_ev)
     rep.coverage["traces_validated_against_impl"] -= len(traces)      # these were not recordings
     return verdicts
